@@ -98,9 +98,17 @@ class Lane(LaneBase):
             if g.get_all_variable_names() != sorted(vs):
                 bad.append(f'{where}: get_all_variable_names() differs from the scan')
             for i, v, l in recs:
+                want = sorted(j for j, _, k in recs if k == l and j != i)
                 got = sorted(x.identifier for x in g.get_contemporaneous_nodes(i))
-                if got != sorted(j for j, _, k in recs if k == l and j != i):
+                if got != want:
                     bad.append(f'{where}: get_contemporaneous_nodes({i!r}) differs from the scan')
+                got = sorted(x.identifier for x in g.get_contemporaneous_nodes(g.get_node(i)))
+                if got != want:
+                    bad.append(f'{where}: get_contemporaneous_nodes(<the node object {i!r}>) differs from the scan')
+                from cai_causal_graph.graph_components import TimeSeriesNode
+                got = sorted(x.identifier for x in g.get_contemporaneous_nodes(TimeSeriesNode(i)))
+                if got != want:
+                    bad.append(f'{where}: get_contemporaneous_nodes(<a fresh equal node {i!r}>) differs from the scan')
             pos = [l for _, _, l in recs if l >= 0]
             neg = [l for _, _, l in recs if l <= 0]
             if g.max_forward_lag != (max(pos) if pos else None):
